@@ -27,7 +27,14 @@ impl Ex for WithRawSiginfo {
     const RAW: bool = true;
     fn decode(o: &libc::siginfo_t) -> (i32, u64, bool) {
         let v = unsafe { o.si_value().sival_ptr as usize as u64 };
-        let ok = (o.si_code == -1 || o.si_code == -6) && unsafe { o.si_pid() } == unsafe { libc::getpid() } && unsafe { o.si_uid() } == unsafe { libc::getuid() };
+        let mut ok = (o.si_code == -1 || o.si_code == -6) && unsafe { o.si_pid() } == unsafe { libc::getpid() } && unsafe { o.si_uid() } == unsafe { libc::getuid() };
+        // the whole record, not only the fields this kind of delivery names: queued deliveries carry a
+        // pattern in bytes 32..48, and everything after that is zero as the kernel wrote it
+        let words = unsafe { std::slice::from_raw_parts(o as *const libc::siginfo_t as *const u64, 16) };
+        if o.si_code == -1 && v != 0 {
+            ok = ok && words[4] == sched::payload_pattern(v) && words[5] == !sched::payload_pattern(v);
+        }
+        ok = ok && words[6..].iter().all(|w| *w == 0);
         (o.si_signo, v, ok)
     }
 }
@@ -53,6 +60,8 @@ pub struct IS<E: Ex> {
     /// a second batch (`pending()` returns a detached, sendable iterator) handed to another thread
     batch: Mutex<Option<signal_hook::iterator::backend::Pending<E>>>,
     handoff: [i32; 2],
+    /// a pipe nobody writes to: what a task without an armed waker waits for
+    never: [i32; 2],
 }
 
 #[derive(Clone)]
@@ -78,6 +87,10 @@ pub struct IP {
     pub second_scanner: bool,
     /// the add_signal threads come before the delivery threads in the default order
     pub adders_first: bool,
+    /// the first closer makes an addition that is refused by panic (caught) right before it closes
+    pub closer_after_rejected_add: bool,
+    /// a number the OS refuses: added once during setup (error), and again by a thread of its own
+    pub refused_readd: Option<i32>,
 }
 
 fn log_yield<E: Ex>(o: &E::Output) {
@@ -211,8 +224,15 @@ fn consumer_body<E: Ex>(s: &IS<E>, p: &IP) {
                     PollResult::Signal(x) => log_yield::<E>(&x),
                     PollResult::Pending => {
                         sched::log("poll_pending", consulted_false as u64, 0);
-                        // the task is parked until its waker fires (readiness of the pipe)
-                        sched::wait_readable(fd);
+                        // the task is parked until its waker fires (readiness of the pipe) - and a waker is
+                        // armed only by a callback that answered "nothing available": without one the task
+                        // is never polled again
+                        if consulted_false {
+                            sched::wait_readable(fd);
+                        } else {
+                            sched::log("stranded", 0, 0);
+                            sched::wait_readable(s.never[0]);
+                        }
                     }
                     PollResult::Closed => {
                         sched::log("poll_closed", 0, 0);
@@ -350,7 +370,15 @@ where
         unsafe {
             libc::pipe(handoff.as_mut_ptr());
         }
-        Arc::new(IS { consumer: Mutex::new(Some(consumer)), handle, fd, batch: Mutex::new(None), handoff })
+        let mut never = [0i32; 2];
+        unsafe {
+            libc::pipe(never.as_mut_ptr());
+        }
+        if let Some(x) = pp.refused_readd {
+            let r = handle.add_signal(x);
+            assert!(r.is_err(), "the OS accepts {}", x);
+        }
+        Arc::new(IS { consumer: Mutex::new(Some(consumer)), handle, fd, batch: Mutex::new(None), handoff, never })
     };
     let mut threads: Vec<ThreadSpec<Arc<IS<E>>>> = Vec::new();
     let pk = p.clone();
@@ -384,6 +412,17 @@ where
                 sched::log("add_call", sg as u64, 0);
                 s.handle.clone().add_signal(sg).expect("add_signal");
                 sched::log("add_ret", sg as u64, 0);
+            }),
+            nest_signals: vec![],
+            max_nest: 0,
+        });
+    }
+    if let Some(x) = p.refused_readd {
+        adder_threads.push(ThreadSpec {
+            name: "R",
+            body: Box::new(move |s: &Arc<IS<E>>| {
+                let r = s.handle.clone().add_signal(x);
+                sched::log("refused_add", r.is_err() as u64, x as u64);
             }),
             nest_signals: vec![],
             max_nest: 0,
@@ -438,11 +477,16 @@ where
             max_nest: 0,
         });
     } else {
+        let rejected_first = p.closer_after_rejected_add;
         for i in 0..p.free_closers {
             threads.push(ThreadSpec {
                 name: if i == 0 { "X1" } else { "X2" },
                 body: Box::new(move |s: &Arc<IS<E>>| {
                     let h = s.handle.clone();
+                    if rejected_first && i == 0 {
+                        let r = std::panic::catch_unwind(std::panic::AssertUnwindSafe(|| h.add_signal(libc::SIGKILL)));
+                        sched::log("rejected_add", r.is_err() as u64, 0);
+                    }
                     sched::log("close_call", i as u64, 0);
                     h.close();
                     sched::log("close_ret", i as u64, 0);
@@ -460,6 +504,8 @@ where
         unsafe {
             libc::close(s.handoff[0]);
             libc::close(s.handoff[1]);
+            libc::close(s.never[0]);
+            libc::close(s.never[1]);
         }
         drop(s); // unregisters everything the instance owns, closes the pipe
         if !e.panics.is_empty() {
@@ -488,6 +534,9 @@ fn check(log: &[Ev], p: &IP, closed_end: bool) -> Result<u64, String> {
             }
             if let Some(m) = unreported(log, &p.initial, p.match_values) {
                 return Err(format!("C09: {}", m));
+            }
+            if log.iter().any(|e| e.tag == "stranded") {
+                return Err("C09: the poller was told 'pending' in a call in which the readiness callback never answered 'nothing available': it is parked without an armed wake-up".into());
             }
         }
         "C10" => {
@@ -604,7 +653,17 @@ fn check(log: &[Ev], p: &IP, closed_end: bool) -> Result<u64, String> {
 }
 
 fn ip(name: &'static str, prop: &'static str, mode: Mode) -> IP {
-    IP { name, prop, mode, initial: vec![S1], deliverers: vec![], adders: vec![], free_closers: 0, nest_on_k: vec![], max_nest: 1, max_rounds: 8, match_values: false, forever_one: false, second_scanner: false, adders_first: false }
+    IP { name, prop, mode, initial: vec![S1], deliverers: vec![], adders: vec![], free_closers: 0, nest_on_k: vec![], max_nest: 1, max_rounds: 8, match_values: false, forever_one: false, second_scanner: false, adders_first: false, closer_after_rejected_add: false, refused_readd: None }
+}
+
+/// The iterator-side scenario of C07: the per-signal channels of the info-carrying exfiltrators are
+/// reached through a pointer; a scanner and a retried (refused) addition of the same number meet.
+pub fn scenarios_c07(tier: Tier) -> Vec<Item> {
+    let q = tier == Tier::Quick;
+    let mut p = ip("raw_pending_vs_retry_of_refused_add", "C07", Mode::Pending);
+    p.deliverers = vec![vec![S1, S1]];
+    p.refused_readd = Some(100);
+    vec![item(build::<WithRawSiginfo>(p), Some(if q { 1 } else { 2 }), "WithRawSiginfo: the consumer scans (all 128 slots) while another thread retries an addition the OS refuses (slot 100 already holds a channel from the first attempt): no operation on released memory")]
 }
 
 pub fn scenarios(prop: &str, tier: Tier) -> Vec<Item> {
@@ -673,6 +732,13 @@ pub fn scenarios(prop: &str, tier: Tier) -> Vec<Item> {
                 p.deliverers = vec![vec![S1]];
                 p.free_closers = 1;
                 v.push(item(build::<SignalOnly>(p), b(2, 4), "close() at any instant vs the consumer's checks, reads and scans, with one delivery"));
+            }
+            for (mode, mname) in [(Mode::Wait, "wait"), (Mode::Forever, "forever")] {
+                let mut p = ip(Box::leak(format!("close_after_rejected_add_{}", mname).into_boxed_str()), prop, mode);
+                p.deliverers = vec![vec![S1]];
+                p.free_closers = 1;
+                p.closer_after_rejected_add = true;
+                v.push(item(build::<SignalOnly>(p), b(1, 3), "a handle clone makes an addition that is refused by panic (caught), then closes: the consumer is released, is_closed sticks"));
             }
             let mut p = ip("close_twice_poll", prop, Mode::Poll);
             p.free_closers = 2;
